@@ -202,6 +202,19 @@ def playback_values(group, root, h, tier):
     return vals
 
 
+def _names_by_file(cfg):
+    """module file -> names of the harnesses defined in the harness file this group appends to it"""
+    out = {}
+    for rel, hfile in cfg["harness"].items():
+        names = set()
+        for h in config.HARNESSES:
+            g = config.GROUPS[h["group"]]
+            if g["harness"].get(rel) == hfile and rel.endswith("/" + h["module"].replace("::", "/") + ".rs"):
+                names.add(h["name"])
+        out[rel] = sorted(names)
+    return out
+
+
 def replay_target_dir(group):
     return os.path.join(CACHE, "replay", group)
 
@@ -211,8 +224,8 @@ def run_native(group, h_name, module, vals, release):
     returns (reproduced, labels, output tail)"""
     cfg = dict(config.GROUPS[group])
     hfile = [f for f in cfg["harness"] if f.endswith("/" + module.replace("::", "/") + ".rs")]
-    # all harnesses of the module get an entry: the overlay text (and with it cargo's fingerprint) must not depend on which one is replayed
-    cfg["harness_names"] = {f: sorted(set(h["name"] for h in config.HARNESSES if h["module"] == module and config.GROUPS[h["group"]]["package"] == cfg["package"])) for f in hfile}
+    # all harnesses of the harness FILE get an entry: the overlay text (and with it cargo's fingerprint) must not depend on which one is replayed
+    cfg["harness_names"] = _names_by_file(cfg)
     info = overlay.build(group, cfg, "replay")
     try:
         env = _env()
@@ -243,9 +256,7 @@ def run_native(group, h_name, module, vals, release):
 
 def prebuild_replay(group, release):
     cfg = dict(config.GROUPS[group])
-    cfg["harness_names"] = {f: sorted(set(h["name"] for h in config.HARNESSES
-                                          if f.endswith("/" + h["module"].replace("::", "/") + ".rs") and config.GROUPS[h["group"]]["package"] == cfg["package"]))
-                            for f in cfg["harness"]}
+    cfg["harness_names"] = _names_by_file(cfg)
     info = overlay.build(group, cfg, "replay")
     try:
         env = _env()
